@@ -26,7 +26,7 @@ theorem listLoop_ok (cx : Ctx) (off : Int) (key : Bytes) : ∀ (f : Nat) (terms 
     PROK cx q e (listLoop cx off key f terms q e) := by
   intro f
   induction f with
-  | zero => intro terms q e; exact ⟨by simp [listLoop], Or.inl rfl⟩
+  | zero => intro terms q e; exact perr_ok cx _ (Nat.le_refl _) (ErrOK.refl _ _ _)
   | succ f ih =>
     intro terms q e
     simp only [listLoop]
@@ -54,13 +54,13 @@ theorem parser_ok (cx : Ctx) : ∀ (f : Nat),
   induction f with
   | zero =>
     refine ⟨?_, ?_, ?_, ?_, ?_⟩
-    · intro q e; exact ⟨by simp [exprF], Or.inl rfl⟩
-    · intro t q e; exact ⟨by simp [exprLoop], Or.inl rfl⟩
-    · intro q e; exact ⟨by simp [andExprF], Or.inl rfl⟩
-    · intro t q e; exact ⟨by simp [andLoop], Or.inl rfl⟩
+    · intro q e; exact perr_ok cx _ (Nat.le_refl _) (ErrOK.refl _ _ _)
+    · intro t q e; exact perr_ok cx _ (Nat.le_refl _) (ErrOK.refl _ _ _)
+    · intro q e; exact perr_ok cx _ (Nat.le_refl _) (ErrOK.refl _ _ _)
+    · intro t q e; exact perr_ok cx _ (Nat.le_refl _) (ErrOK.refl _ _ _)
     · intro q e
-      refine ⟨⟨by simp [matchF], Or.inl rfl⟩, ?_⟩
-      intro h; simp only [matchF, List.length_nil]; exact List.length_pos_iff.mpr h
+      refine ⟨perr_ok cx _ (Nat.le_refl _) (ErrOK.refl _ _ _), ?_⟩
+      intro h; simp only [matchF, perr, List.length_nil]; exact List.length_pos_iff.mpr h
   | succ f ih =>
     obtain ⟨ihE, ihEL, ihA, ihAL, ihM⟩ := ih
     refine ⟨?_, ?_, ?_, ?_, ?_⟩
@@ -284,7 +284,7 @@ theorem fixedLoop_ok (cx : Ctx) : ∀ (n : Nat) (f : Field) (q : Bytes) (e : Err
     FROK cx q e (fixedLoop cx n f q e) := by
   intro n
   induction n with
-  | zero => intro f q e; exact ⟨by simp [fixedLoop], Or.inl rfl⟩
+  | zero => intro f q e; exact ⟨by simp [fixedLoop], recErr_ok cx _ _ (Nat.le_refl _)⟩
   | succ n ih =>
     intro f q e
     simp only [fixedLoop]
@@ -364,7 +364,7 @@ theorem projLoop_ok (cx : Ctx) : ∀ (n : Nat) (fs : List Field) (q : Bytes) (e 
     (projLoop cx n fs q e).2.1.length ≤ q.length ∧ ErrOK cx q e (projLoop cx n fs q e).2.2 := by
   intro n
   induction n with
-  | zero => intro fs q e; exact ⟨by simp [projLoop], Or.inl rfl⟩
+  | zero => intro fs q e; exact ⟨by simp [projLoop], recErr_ok cx _ _ (Nat.le_refl _)⟩
   | succ n ih =>
     intro fs q e
     simp only [projLoop]
